@@ -6,9 +6,14 @@ LEAN_SETTING_NOTE = (
     "star-stable filtration by order; the five parts up/lo/kc/kn/ed are complementary idempotent Q-linear projections compatible with "
     "star and the filtration; tl removes the zeroth order; H0 is self-adjoint, has only kept elements and commutes with taking parts; "
     "the solver satisfies H0 V - V H0 = z on upper blocks and on eliminated diagonal elements, preserves orders and is adjoint-compatible "
-    "on diagonal blocks; kept x eliminated products have no kept element in blocks whose commuting flag is set.  Each field is either a "
-    "fact about block series / the Cauchy product (C18 bridge, not mechanised: A-MATH) or a call-site obligation discharged by PyVC units "
-    "listed in this evidence (masks, solver, flags) when present.  The two-block-optimised variant of `main` (two_block_optimized = True: exactly two "
+    "on diagonal blocks; kept x eliminated products have no kept element in blocks whose commuting flag is set.  The setting is instantiated in Lean "
+    "(PV/Model.lean, MatrixModel.lean, ModelTheorems.lean, TwoBlockModel.lean): multivariate formal power series (any set of parameters, Cauchy product = "
+    "Mathlib's MvPowerSeries multiplication, filtration by total order) over n x n matrices over any field with conjugation, entry masks given by a classification "
+    "of entries, H0 = diag(E) with real E, solver = entry-wise division on eliminated entries; PV.MatrixModel.main_theorems / two_block_theorems state C01-C03 for that "
+    "model with no abstract class left.  The hypotheses of the model (classification symmetric under transposition, diagonal entries kept, no kept entry in "
+    "eliminated x kept products inside commuting blocks, energies of eliminated pairs differ) are the call-site obligations discharged by the PyVC units on masks, "
+    "flags and solver in this run.  Still assumed: numpy / scipy / sympy arrays implement matrix arithmetic (A-NP, A-SC, A-SY) and the finite-sum lemma linking the "
+    "fold of product_by_order to the antidiagonal sum (C18).  The two-block-optimised variant of `main` (two_block_optimized = True: exactly two "
     "blocks, no fully_diagonalize) is covered by PV/TwoBlock.lean: under the class TwoBlocks (no eliminated or non-commuting diagonal part; products of "
     "block-diagonal / block-off-diagonal elements are block-diagonal / off-diagonal as for 2 x 2 block matrices - A-MATH; the flag is set only in that "
     "situation - PyVC obligation of unit bd_masks) every solution of the optimised equations solves the general equations (PV.TB.toMain), so all theorems apply."
@@ -21,4 +26,6 @@ def specs_hermitian(tier):
 
 
 # vacuity guard: the class axioms and the generated equation structures are jointly satisfiable (degenerate witness A = Q)
-LEAN_VACUITY = ["PV.Inst.filt", "PV.Inst.blocks", "PV.Inst.twoBlocks", "PV.Inst.unperturbed", "PV.Inst.gapped", "PV.Inst.trivMainEqs", "PV.Inst.trivMainEqs2b"]
+LEAN_MODEL = ['PV.Model.filtered', 'PV.Model.blocks', 'PV.Model.lift', 'PV.MatrixModel.coeffBlocks', 'PV.MatrixModel.coeffUnperturbed', 'PV.MatrixModel.main_theorems', 'PV.MatrixModel.twoBlocks', 'PV.MatrixModel.two_block_theorems']
+
+LEAN_VACUITY = LEAN_MODEL + ["PV.Inst.filt", "PV.Inst.blocks", "PV.Inst.twoBlocks", "PV.Inst.unperturbed", "PV.Inst.gapped", "PV.Inst.trivMainEqs", "PV.Inst.trivMainEqs2b"]
